@@ -329,34 +329,35 @@ fn text_formats(rep: &Report) {
                 if mask & 63 == 0 { continue; }
                 let cells: Vec<((u32, u32), String)> = positions.iter().enumerate().filter(|(i, _)| mask & (1 << i) != 0).map(|(i, p)| (*p, if fmt == "ods" { format!("of:={}", texts[(ti + i) % texts.len()]) } else { texts[(ti + i) % texts.len()].to_string() })).collect();
                 let _ = t;
-                let plain = (anchor.0 + 3, anchor.1 + 3);
+                // constants without a formula: one in a row of its own, one in the first row to the right of every formula column
+                let plains: [(u32, u32); 2] = [(anchor.0 + 3, anchor.1 + 3), (anchor.0, anchor.1 + 7)];
                 crate::engine::crumb::set_case(&format!("C14 {fmt} stored-text formulas {cells:?}"));
                 let bytes = if fmt == "xlsx" {
                     let mut xc: Vec<xlsx::XCell> = cells.iter().map(|(p, f)| { let mut c = xlsx::XCell::new(p.0, p.1, xlsx::XVal::Num("1".into())); c.formula = Some(xlsx::XFormula::Plain(f.clone())); c }).collect();
-                    xc.push(xlsx::XCell::new(plain.0, plain.1, xlsx::XVal::Num("5".into())));
+                    for pl in plains { xc.push(xlsx::XCell::new(pl.0, pl.1, xlsx::XVal::Num("5".into()))); }
                     xlsx::write(&xlsx::XBook { sheets: vec![xlsx::XSheet::new("S", xc)], ..Default::default() }, &xlsx::XEnc { prefix: mask % 2 == 0,
                         split_text_nodes: mask % 5 == 4, rows_never_r: mask % 7 == 3, extras: mask % 3 == 2, comments: mask % 11 == 5, cell_r: if (mask + ti as u32) % 3 == 1 { xlsx::RMode::Implicit } else { xlsx::RMode::Explicit }, row_r: if (mask + ti as u32) % 3 == 2 { xlsx::RMode::Implicit } else { xlsx::RMode::Explicit }, ..Default::default() })
                 } else {
-                    let maxr = cells.iter().map(|c| c.0 .0).max().unwrap().max(plain.0);
+                    let maxr = cells.iter().map(|c| c.0 .0).max().unwrap().max(plains[0].0);
                     let mut rows = vec![];
                     let mut r = 0u32;
                     while r <= maxr {
                         let here: Vec<&((u32, u32), String)> = cells.iter().filter(|c| c.0 .0 == r).collect();
-                        if here.is_empty() && r != plain.0 {
+                        if here.is_empty() && !plains.iter().any(|pl| pl.0 == r) {
                             // run of empty rows up to the next used row
-                            let next = cells.iter().map(|c| c.0 .0).chain([plain.0]).filter(|x| *x > r).min().unwrap_or(maxr + 1);
+                            let next = cells.iter().map(|c| c.0 .0).chain(plains.iter().map(|pl| pl.0)).filter(|x| *x > r).min().unwrap_or(maxr + 1);
                             rows.push(ods::ORow { cells: vec![(ods::OCell::empty(), 1)], repeat: next - r });
                             r = next;
                             continue;
                         }
                         let mut rc = vec![];
-                        let maxc = here.iter().map(|c| c.0 .1).max().unwrap_or(0).max(if r == plain.0 { plain.1 } else { 0 });
+                        let maxc = here.iter().map(|c| c.0 .1).chain(plains.iter().filter(|pl| pl.0 == r).map(|pl| pl.1)).max().unwrap_or(0);
                         let mut c = 0u32;
                         while c <= maxc {
                             if let Some(f) = here.iter().find(|x| x.0 .1 == c) { // every third formula cell has no cached value at all (legal: the value attributes are optional)
                                 let mut oc = ods::OCell::new(if (mask + c) % 3 == 0 { ods::OVal::Empty } else { ods::OVal::Float("1".into(), "float") }); oc.formula = Some(f.1.clone()); rc.push((oc, 1)); c += 1; }
-                            else if r == plain.0 && c == plain.1 { rc.push((ods::OCell::new(ods::OVal::Float("5".into(), "float")), 1)); c += 1; }
-                            else { let next = here.iter().map(|x| x.0 .1).chain(if r == plain.0 { vec![plain.1] } else { vec![] }).filter(|x| *x > c).min().unwrap_or(maxc + 1); rc.push((ods::OCell::empty(), next - c)); c = next; }
+                            else if plains.contains(&(r, c)) { rc.push((ods::OCell::new(ods::OVal::Float("5".into(), "float")), 1)); c += 1; }
+                            else { let next = here.iter().map(|x| x.0 .1).chain(plains.iter().filter(|pl| pl.0 == r).map(|pl| pl.1)).filter(|x| *x > c).min().unwrap_or(maxc + 1); rc.push((ods::OCell::empty(), next - c)); c = next; }
                         }
                         rows.push(ods::ORow { cells: rc, repeat: 1 });
                         r += 1;
